@@ -959,3 +959,40 @@ package transport
 //@ func (c *Client) listen()
 //@   property C10
 //@   ensures called(atomic.Uint32.Load) && resultof(atomic.Uint32.Load, result) != transport.clientStateOpen
+
+// ===========================================================================
+// C03: the reading side above the receive queue - every byte of every queued message is handed to the caller exactly
+// once and in order: buffered leftovers first; of a newly taken message the first copy(b, msg) bytes go to the caller
+// and exactly the rest, msg[n:], into the leftover buffer (stream read), or the whole message is kept for the next call
+// (message read with too small a buffer).  The queue itself (a channel) is not modelled: Recv is an assumed contract.
+// ===========================================================================
+//@ macro buffered(c) = len(c.buf.buf) - c.buf.off
+//@ func (c *Handle) Read(b []byte) (n int, err error)
+//@   property C03
+//@   atomic
+// (the message's bytes are taken as they were when it was received)
+//@   after common.DeadlineChan.Recv let mPre = bytes(resultof(common.DeadlineChan.Recv, v)[:(len(b) < len(resultof(common.DeadlineChan.Recv, v)) ? len(b) : len(resultof(common.DeadlineChan.Recv, v)))])
+//@   after common.DeadlineChan.Recv let mSuf = bytes(resultof(common.DeadlineChan.Recv, v)[(len(b) < len(resultof(common.DeadlineChan.Recv, v)) ? len(b) : len(resultof(common.DeadlineChan.Recv, v))):])
+//@   ensures old(buffered(c)) > 0 ==> !called(common.DeadlineChan.Recv) && callcount(bytes.Buffer.Read) == 1 && n == resultof(bytes.Buffer.Read, n) && same(argof(bytes.Buffer.Read, p), b) && argof(bytes.Buffer.Read, b) == &c.buf
+//@   ensures old(buffered(c)) == 0 ==> callcount(common.DeadlineChan.Recv) == 1 && !called(bytes.Buffer.Read)
+//@   ensures old(buffered(c)) == 0 && resultof(common.DeadlineChan.Recv, err) != nil ==> n == 0 && err != nil && !called(bytes.Buffer.Write)
+//@   ensures old(buffered(c)) == 0 && resultof(common.DeadlineChan.Recv, err) == nil ==>
+//@        n == (len(b) < len(resultof(common.DeadlineChan.Recv, v)) ? len(b) : len(resultof(common.DeadlineChan.Recv, v)))
+// (the bytes handed over are the message's first n; stated for a message that fits - when a leftover is buffered the model
+// cannot exclude that the leftover buffer's array, re-read after the blocking receive, overlaps the caller's slice)
+//@   ensures old(buffered(c)) == 0 && resultof(common.DeadlineChan.Recv, err) == nil && n == len(resultof(common.DeadlineChan.Recv, v)) ==> bytes(b[:n]) == mPre
+//@   ensures old(buffered(c)) == 0 && resultof(common.DeadlineChan.Recv, err) == nil && n < len(resultof(common.DeadlineChan.Recv, v)) ==>
+//@        callcount(bytes.Buffer.Write) == 1 && argof(bytes.Buffer.Write, b) == &c.buf && len(argof(bytes.Buffer.Write, p)) == len(resultof(common.DeadlineChan.Recv, v)) - n &&
+//@        same(argof(bytes.Buffer.Write, p), resultof(common.DeadlineChan.Recv, v)[n:])
+//@   ensures old(buffered(c)) == 0 && resultof(common.DeadlineChan.Recv, err) == nil && n == len(resultof(common.DeadlineChan.Recv, v)) ==> !called(bytes.Buffer.Write) && err == nil
+//@ func (c *Handle) ReadMsg(b []byte) (n int, err error)
+//@   property C03
+//@   atomic
+//@   after common.DeadlineChan.Recv let mAll = bytes(resultof(common.DeadlineChan.Recv, v))
+//@   ensures old(buffered(c)) > 0 && len(b) < old(buffered(c)) ==> n == 0 && err != nil && !called(bytes.Buffer.Read) && !called(common.DeadlineChan.Recv)
+//@   ensures old(buffered(c)) > 0 && len(b) >= old(buffered(c)) ==> !called(common.DeadlineChan.Recv) && callcount(bytes.Buffer.Read) == 1 && n == resultof(bytes.Buffer.Read, n) && same(argof(bytes.Buffer.Read, p), b)
+//@   ensures old(buffered(c)) == 0 ==> callcount(common.DeadlineChan.Recv) == 1 && !called(bytes.Buffer.Read)
+//@   ensures old(buffered(c)) == 0 && resultof(common.DeadlineChan.Recv, err) == nil && len(b) >= len(resultof(common.DeadlineChan.Recv, v)) ==>
+//@        err == nil && n == len(resultof(common.DeadlineChan.Recv, v)) && bytes(b[:n]) == mAll && !called(bytes.Buffer.Write)
+//@   ensures old(buffered(c)) == 0 && resultof(common.DeadlineChan.Recv, err) == nil && len(b) < len(resultof(common.DeadlineChan.Recv, v)) ==>
+//@        n == 0 && err != nil && callcount(bytes.Buffer.Write) == 1 && same(argof(bytes.Buffer.Write, p), resultof(common.DeadlineChan.Recv, v))
